@@ -18,8 +18,9 @@
   Both are instances of the abstract cell tables `Cell P A B` / `uhat P A B` / `bJ P A B` over `Fin N`.
   All statements are about the executable model `product2Raw/U/L`, `product3Raw/U/L`
   (SLV/Model/Prod.lean) at the exact semantics `XQ f`, for every `n0 n1 n2` (`0 < n_i` follows from
-  `Σ a_i = 1`); the factors are `WF` in the sense of C09 (zero base-rate entries allowed: the model's
-  candidate entry of such a cell is `+inf` or NaN and is skipped by the `min` reduction).
+  `Σ a_i = 1`); the factors are `WF` in the sense of C09 (zero base-rate entries allowed: the model
+  filters the cells with joint base rate `> 0` before the `min` reduction, `C06_cells_iff`, so such a
+  cell contributes no candidate).
 -/
 import SLV.Refine.C06Lemmas
 import SLV.Props.C01
@@ -40,7 +41,7 @@ theorem C06_index (i : Fin n0) (j : Fin n1) (k : Fin (n0 * n1)) :
   ⟨idx2_flat2 i j, flat2_idx2 k, flat2_val i j⟩
 
 /-- `uhat2` is the least `(P - B)/A` over the cells with positive joint base rate; cells with
-    `A = 0` (whose model entry is `+inf` or NaN) do not take part -/
+    `A = 0` (which the model filters out before the reduction) do not take part -/
 theorem C06_uhat_char (h0 : WF b0 u0 a0) (h1 : WF b1 u1 a1) :
     (∀ k, 0 < A2 a0 a1 k → uhat2 b0 u0 a0 b1 u1 a1
         ≤ (P2 b0 u0 a0 b1 u1 a1 k - B2 b0 b1 k) / A2 a0 a1 k) ∧
@@ -77,9 +78,19 @@ theorem C06_uhat_unique_ij (h0 : WF b0 u0 a0) (h1 : WF b1 u1 a1) (q : ℚ)
     · unfold A2; rw [idx2_flat2]; exact hij
     · unfold ucand P2 A2 B2; rw [idx2_flat2]; exact e
 
-/-- 1. the model on lifted well-formed factors returns lifted rational data: every division either has
-    a non-zero denominator or yields `+inf`/NaN that the `min` reduction skips; both projections are
-    normalised by exactly 1 -/
+/-- the cells the model's `filter(a > 0)` keeps are exactly those with a positive joint base rate;
+    a zero-base-rate cell is skipped -/
+theorem C06_cells_iff (a0 : Fin n0 → ℚ) (a1 : Fin n1 → ℚ) (k : Fin (n0 * n1)) :
+    k ∈ ((List.finRange (n0 * n1)).filter fun k =>
+        Scalar.gt (outer2 (liftT a0 : Tab (XQ f) n0) (liftT a1))[k] Scalar.zero)
+      ↔ 0 < a0 (idx2 k).1 * a1 (idx2 k).2 := by
+  rw [outer2_lift]
+  exact mem_cells_iff _ k
+
+/-- 1. the model on lifted well-formed factors returns lifted rational data: only cells with a
+    positive joint base rate pass the model's filter, so every division has a non-zero denominator, and
+    at least one cell passes (`Σ A = 1`), so the `reduce` is not empty; both projections are normalised
+    by exactly 1 -/
 theorem C06_refines (h0 : WF b0 u0 a0) (h1 : WF b1 u1 a1) :
     product2Raw (⟨liftT b0, XQ.fin u0, liftT a0⟩ : Opinion (XQ f) n0) ⟨liftT b1, XQ.fin u1, liftT a1⟩
       = ⟨liftT (bJ2 b0 u0 a0 b1 u1 a1), XQ.fin (uhat2 b0 u0 a0 b1 u1 a1), liftT (A2 a0 a1)⟩ :=
@@ -558,7 +569,7 @@ theorem wfB : WF (n := 3) ![1/2, 1/4, 0] (1/4) ![1/2, 0, 1/2] := by
   constructor <;> simp [Fin.forall_fin_succ, Fin.sum_univ_three] <;> norm_num
 
 /-- on this 2×3 instance the joint uncertainty is 1/4 (attained at the cells `(i, 2)`); the candidates
-    are 3/4, `+inf`, 1/4 in each row -/
+    are 3/4 and 1/4 in each row, the middle cell of each row has base rate 0 and is skipped -/
 example : uhat2 ![1/4, 1/4] (1/2) ![1/2, 1/2] ![1/2, 1/4, 0] (1/4) ![1/2, 0, 1/2] = 1/4 := by
   symm
   apply C06_uhat_unique_ij wfA wfB
@@ -568,27 +579,24 @@ example : uhat2 ![1/4, 1/4] (1/2) ![1/2, 1/2] ![1/2, 1/4, 0] (1/4) ![1/2, 0, 1/2
     · simp
     · simp; norm_num
 
-/-- … the model's candidate entry of the zero-base-rate cell `(0, 1)` is `+inf` (numerator 1/16), -/
+/-- … the zero-base-rate cell `(0, 1)` (numerator `P - B = 1/16`, denominator 0) does not pass the
+    model's `filter(a > 0)`, the cell `(0, 2)` does -/
 example :
-    (XQ.fin (P2 ![1/4, 1/4] (1/2) ![1/2, 1/2] ![1/2, 1/4, 0] (1/4) ![1/2, 0, 1/2] (flat2 0 1))
-        - XQ.fin (B2 ![1/4, 1/4] ![1/2, 1/4, 0] (flat2 0 1)))
-      / (XQ.fin (A2 ![1/2, 1/2] ![1/2, 0, 1/2] (flat2 0 1)) : XQ f) = XQ.pinf := by
-  apply cand_entry_pinf
-  · unfold A2; rw [idx2_flat2]; simp
-  · unfold B2 P2; rw [idx2_flat2]; simp
+    flat2 (0 : Fin 2) (1 : Fin 3) ∉ ((List.finRange (2 * 3)).filter fun k =>
+      Scalar.gt (outer2 (liftT ![1/2, 1/2] : Tab (XQ f) 2) (liftT ![1/2, 0, 1/2]))[k] Scalar.zero) ∧
+    flat2 (0 : Fin 2) (2 : Fin 3) ∈ ((List.finRange (2 * 3)).filter fun k =>
+      Scalar.gt (outer2 (liftT ![1/2, 1/2] : Tab (XQ f) 2) (liftT ![1/2, 0, 1/2]))[k] Scalar.zero) := by
+  rw [C06_cells_iff, C06_cells_iff, idx2_flat2, idx2_flat2]
+  simp
 
-/-- … and with `b1 = [1/2, 0, 1/4]` (zero mass on the zero-base-rate value) it is `0/0 = NaN`;
-    both are skipped by the `min` reduction -/
+/-- … likewise with `b1 = [1/2, 0, 1/4]` (zero mass on the zero-base-rate value, numerator and
+    denominator both 0): the cell is skipped whatever its numerator, the product is accepted -/
 theorem wfB' : WF (n := 3) ![1/2, 0, 1/4] (1/4) ![1/2, 0, 1/2] := by
   constructor <;> simp [Fin.forall_fin_succ, Fin.sum_univ_three] <;> norm_num
 
-example :
-    (XQ.fin (P2 ![1/4, 1/4] (1/2) ![1/2, 1/2] ![1/2, 0, 1/4] (1/4) ![1/2, 0, 1/2] (flat2 0 1))
-        - XQ.fin (B2 ![1/4, 1/4] ![1/2, 0, 1/4] (flat2 0 1)))
-      / (XQ.fin (A2 ![1/2, 1/2] ![1/2, 0, 1/2] (flat2 0 1)) : XQ f) = XQ.nan := by
-  apply cand_entry_nan
-  · unfold A2; rw [idx2_flat2]; simp
-  · unfold B2 P2; rw [idx2_flat2]; simp
+example : ∃ w, product2U (⟨liftT ![1/4, 1/4], XQ.fin (1/2), liftT ![1/2, 1/2]⟩ : Opinion (XQ f) 2)
+    ⟨liftT ![1/2, 0, 1/4], XQ.fin (1/4), liftT ![1/2, 0, 1/2]⟩ = .ok w :=
+  ⟨_, C06_unlabelled_accepts wfA wfB'⟩
 
 /-- the unlabelled product of the 2×3 instance is accepted by `Opinion::new` -/
 example : ∃ w, product2U (⟨liftT ![1/4, 1/4], XQ.fin (1/2), liftT ![1/2, 1/2]⟩ : Opinion (XQ f) 2)
